@@ -225,6 +225,18 @@ def shard(prop, tier, seed, shard, nshards):
                 ext.append({"at": at, "sim": "E", "event": int(at // period) + 1 + draw(st.integers(0, 3))})
         c = build(n, rtf, tres, steps, durs, draw(st.booleans()), until, strict=draw(st.integers(0, 3)) == 0,
                   jitter=jit, externals=ext)
+        # ungated simulators (immediate, synchronous replies like the repository's test simulators)
+        if mode == "zero" and draw(st.integers(0, 2)) == 0:
+            for sm in c["scenario"]["sims"]:
+                if sm["sid"] != "E" and draw(st.booleans()):
+                    sm["transport"] = "sync"
+        # simulator groups
+        g = draw(st.sampled_from([0, 0, 0, 1, 2]))
+        tree = c["scenario"]["tree"]
+        if g == 1:
+            c["scenario"]["tree"] = [tree]
+        elif g == 2 and len(tree) >= 2:
+            c["scenario"]["tree"] = [tree[:1]] + tree[1:]
         if ext and draw(st.integers(0, 3)) == 0:
             c["scenario"]["run"]["rt_factor"] = None        # set_event outside real-time mode
             c["schedule"] = {}
